@@ -233,6 +233,7 @@ def schedules(ctx, model_ok, tmp):
     registration_races(ctx, tmp, template)
     begin_boundary_races(ctx, tmp, template, ids)
     thread_races(ctx, tmp, template)
+    stale_type_cache(ctx, tmp, template)
     req, impl = [], []
 
     def viol(what, key, replay):
@@ -501,6 +502,39 @@ def registration_races(ctx, tmp, template):
         shutil.rmtree(root, ignore_errors=True)
 
 
+def stale_type_cache(ctx, tmp, template):
+    """Client A has listed the dataset types (its cache is complete), client B registers a new one, A registers the same
+    definition (get-or-create: False) — and can then use it like any other: look it up, put a dataset of it, which B reads."""
+    from lsst.daf.butler import Butler, DatasetType
+
+    root = os.path.join(tmp, "stale")
+    shutil.rmtree(root, ignore_errors=True)
+    shutil.copytree(template, root)
+    A, B = Butler.from_config(root, writeable=True, run="r1"), Butler.from_config(root, writeable=True, run="r1")
+    list(A.registry.queryDatasetTypes())
+    A.get_dataset_type("dt")
+    mk = lambda b: DatasetType("late_type", {"instrument", "detector"}, "StructuredDataDict", universe=b.dimensions)  # noqa: E731
+    steps = []
+    try:
+        steps.append(("B.registerDatasetType", B.registry.registerDatasetType(mk(B))))
+        steps.append(("A.registerDatasetType", A.registry.registerDatasetType(mk(A))))
+        steps.append(("A.get_dataset_type", A.get_dataset_type("late_type").name))
+        ref = A.put({"who": "A"}, "late_type", instrument="I", detector=5)
+        steps.append(("A.put", "ok"))
+        steps.append(("B.get", B.get(ref)))
+        problem = None if steps[0][1] is True and steps[1][1] is False and steps[-1][1] == {"who": "A"} else f"outcomes {steps}"
+    except Exception as e:
+        problem = f"after {steps}: {type(e).__name__}: {str(e)[:100]}"
+    ctx.evaluations += 1
+    ctx.count("stale-dataset-type-cache")
+    if problem:
+        ctx.violations.append(core.Violation(
+            what=f"client A (dataset types listed before) and client B's later registration of a new dataset type: {problem}; in sequential use A registers "
+                 "(False), looks up, puts, and B reads", key="c20:stale-dataset-type-cache", replay={"kind": "stale-type-cache", "steps": [str(x) for x in steps]}))
+    del A, B
+    shutil.rmtree(root, ignore_errors=True)
+
+
 def thread_races(ctx, tmp, template):
     """Two clients in two real threads (what the deterministic injections cannot do: one client *waiting* for the other).
 
@@ -705,7 +739,8 @@ def begin_boundary_races(ctx, tmp, template, ids):
     }
     chain_ops = ["extend(ch,r2)", "prepend(ch,r2)", "prepend(ch,r3)", "extend(ch,r1)", "remove(ch,r1)", "redefine(ch,[r3,r2])"]
     always = [("prepend(ch,r3)", "prepend(ch,r2)"), ("redefine(ch,[r3,r2])", "extend(ch,r2)"), ("extend(ch,r1)", "extend(ch,r2)"), ("remove(ch,r1)", "prepend(ch,r3)"),
-              ("assoc(tg,x1)", "assoc(tg,z1)"), ("assoc(tg,z1)", "assoc(tg,x1)"), ("assoc(tg,x1)", "purge(x1)"), ("removeRuns(r2)", "extend(ch,r2)")]
+              ("assoc(tg,x1)", "assoc(tg,z1)"), ("assoc(tg,z1)", "assoc(tg,x1)"), ("assoc(tg,x1)", "purge(x1)"), ("removeRuns(r2)", "extend(ch,r2)"),
+              ("removeRuns(r2)", "put(r2,2)")]
     others = [(a, b_) for a in OPS for b_ in OPS if a != b_ and (a, b_) not in always]
     rng.shuffle(others)
     pairs = always + (others[:6] if ctx.quick() else others)
@@ -721,6 +756,14 @@ def begin_boundary_races(ctx, tmp, template, ids):
         del admin
         return root
 
+    def settle(root):
+        """what the next client's trash emptying makes of the repository (a dataset left half removed shows up here)"""
+        c_ = Butler.from_config(root, writeable=True)
+        try:
+            c_._datastore.emptyTrash()
+        finally:
+            del c_
+
     txn_counts = {}
     for a_name, b_name in pairs:
         op_a, op_b = OPS[a_name], OPS[b_name]
@@ -733,11 +776,22 @@ def begin_boundary_races(ctx, tmp, template, ids):
             for c in order:
                 outs[c] = call(op_a, A, RA) if c == "A" else call(op_b, B, RB)
             del A, B
+            settle(root)
             serial[(outs["A"], outs["B"], canon(observe(root)))] = order
             if {a_name, b_name} == {"assoc(tg,x1)", "assoc(tg,z1)"} and sorted(outs.values()) != ["ok", "refused"]:
                 # two datasets of one dataset type and data ID cannot both be members of a TAGGED collection: whichever comes second is refused
                 viol(f"{a_name} and {b_name} in the order {order}: outcomes {outs}; exactly one of two conflicting associations can be accepted",
                      f"c20:conflicting-assoc:{order}", {"kind": "begin-boundary", "A": a_name, "B": b_name, "order": order})
+        # an operation that is refused and leaves no trace counts as not having happened (an aborted transaction): the other
+        # operation alone is then the sequential order that explains the outcome
+        for who, op_, name_ in (("A", op_a, a_name), ("B", op_b, b_name)):
+            root = fresh("bseq")
+            C = Butler.from_config(root, writeable=True, run="r1")
+            out_ = call(op_, C, resolve(C))
+            del C
+            settle(root)
+            key_ = (out_, "refused", canon(observe(root))) if who == "A" else ("refused", out_, canon(observe(root)))
+            serial.setdefault(key_, f"{who} alone")
         for k in range(1, 40):
             root = fresh("bpar")
             A, B = Butler.from_config(root, writeable=True, run="r1"), Butler.from_config(root, writeable=True, run="r1")
@@ -769,6 +823,7 @@ def begin_boundary_races(ctx, tmp, template, ids):
                 del A, B
                 break  # A starts no more than k transactions: every boundary has been used
             del A, B
+            settle(root)
             got = (ra, state["res_b"], canon(observe(root)))
             ctx.evaluations += 1
             ctx.count("begin-boundary-interleavings")
